@@ -1825,11 +1825,12 @@ def apply_fault(ctx, where, metas, educed):
         p = pick(r, ['bound(*), bound = false'] if where == 'type' else ['ignore, ignore = true', 'method(m), method = "n"'])
         metas = [m for m in metas if not m.startswith(t)] + ['%s(%s)' % (t, p)]
     elif k == 'bad_form':
-        metas = [m for m in metas if not m.startswith(t)] + [pick(r, ['%s = 5' % t, '%s = "x"' % t, '%s(ignore = 1)' % t, '%s(bound)' % t, '%s(method)' % t, '%s(method = 1)' % t])]
+        metas = [m for m in metas if not m.startswith(t)] + [pick(r, ['%s = 5' % t, '%s = "x"' % t, '%s(ignore = 1)' % t, '%s(bound)' % t, '%s(method)' % t, '%s(method = 1)' % t,
+                                                                       '%s' % t, '%s = true' % t, '%s(rank)' % t, '%s(name)' % t])]
     elif k == 'dup_trait':
         metas.append(t)
     elif k == 'dup_trait_item':
-        metas = [m for m in metas if not m.startswith(t)] + ['%s(ignore)' % t, '%s = false' % t]
+        metas = [m for m in metas if not m.startswith(t)] + pick(r, [['%s(ignore)' % t, '%s = false' % t], [t, t], ['%s()' % t, t], [t, '%s = false' % t]])
     elif k == 'dup_trait_item_empty':
         # the same trait twice on one item, each in a form that is accepted there on its own
         metas = [m for m in metas if not m.startswith(t)] + ['%s()' % t, pick(r, ['%s()' % t, '%s( )' % t])]
